@@ -166,6 +166,63 @@ def _job(args):
     return recs
 
 
+def _extra_job(args):
+    """zero-valued options and option objects edited in place between two calls (per variant and delivery route)"""
+    emd = core.import_emd()
+    variant, route, sig = args
+    S = emd.sift
+    rng = np.random.RandomState(sig)
+    n = 160
+    x = np.sin(np.arange(n) * .9) + .5 * np.sin(np.arange(n) * .11) + .05 * rng.randn(n)
+    small = {'sift': {'max_imfs': 3}, 'ensemble_sift': {'max_imfs': 2, 'nensembles': 2, 'nprocesses': 2},
+             'complete_ensemble_sift': {'max_imfs': 2, 'nensembles': 2, 'nprocesses': 2},
+             'mask_sift': {'max_imfs': 3, 'nprocesses': 2, 'nphases': 2, 'mask_freqs': .2}}[variant]
+    fn = getattr(S, variant)
+
+    def call(imf_opts, cfg=None):
+        np.random.seed(3)
+        if route == 'kwargs':
+            r = fn(x, imf_opts=imf_opts, **small)
+        else:
+            c = cfg if cfg is not None else S.get_config(variant)
+            for k, v in small.items():
+                c[k] = v
+            for k, v in imf_opts.items():
+                c['imf_opts'][k] = v
+            r = fn(x, **c) if route == 'config' else c.get_func()(x)
+        return r[0] if isinstance(r, tuple) else r
+    recs = []
+    # energy_thresh = 0 dB against a tiny positive threshold: the same decision at every layer
+    # (ensemble_sift is asked for one component: with an energy threshold its members stop after the first IMF, and the
+    #  routine raises IndexError when members return fewer columns than the cap - DESIGN appendix B, not C06's matter)
+    keep = dict(small)
+    if variant == 'ensemble_sift':
+        small['max_imfs'] = 1
+    a = core.guarded(call, {'energy_thresh': 0.0}, _timeout=120)
+    b = core.guarded(call, {'energy_thresh': 1e-9}, _timeout=120)
+    small.update(keep)
+    recs.append({'kind': 'zero', 'variant': variant, 'route': route, 'option': 'imf_opts/energy_thresh', 'raised': int(isinstance(a, str) or isinstance(b, str)),
+                 'same': int(not isinstance(a, str) and not isinstance(b, str) and a.shape == b.shape and np.array_equal(a, b))})
+    # one option object, two calls, edited in place in between; the reference is a call with a fresh object holding the new values
+    first = {'stop_method': 'fixed', 'max_iters': 2, 'env_step_size': 1}
+    second = {'stop_method': 'fixed', 'max_iters': 5, 'env_step_size': .5}
+    if route == 'kwargs':
+        live = dict(first)
+        r1 = core.guarded(call, live, _timeout=120)
+        live.update(second)
+        r2 = core.guarded(call, live, _timeout=120)
+    else:
+        cfg = S.get_config(variant)
+        r1 = core.guarded(call, dict(first), cfg, _timeout=120)
+        r2 = core.guarded(call, dict(second), cfg, _timeout=120)
+    ref = core.guarded(call, dict(second), _timeout=120)
+    bad = any(isinstance(v, str) for v in (r1, r2, ref))
+    recs.append({'kind': 'reuse', 'variant': variant, 'route': route, 'raised': int(bad),
+                 'same': int(not bad and r2.shape == ref.shape and np.array_equal(r2, ref)),
+                 'first_differs': int(not bad and not (r1.shape == ref.shape and np.array_equal(r1, ref)))})
+    return recs
+
+
 def run():
     ctx = Ctx('C06')
     cfg = os.path.join(ctx.work, 'of.cfg')
@@ -204,6 +261,8 @@ def run():
         for pat in pats:
             items.append((variant, 'kwargs', pat, 'single', 0))
     recs = [r for p in core.pmap(_job, [(ctx.work, items[i::16]) for i in range(16)], workers=8) for r in p]
+    xjobs = [(v, r, s) for v in ('sift', 'ensemble_sift', 'complete_ensemble_sift', 'mask_sift') for r in ('kwargs', 'config', 'partial') for s in range(ctx.pick(1, 3))]
+    recs += [r for p in core.pmap(_extra_job, xjobs, workers=8) for r in p]
     bad = core.validate_records(ctx, 'OptionFlowRec', recs, name='OptionFlowRec')
     for r in recs:
         if r['kind'] == 'stage' and r['proc'] == 'worker' and 'user' in r['supplied'].values():
@@ -218,7 +277,7 @@ def run():
     for (clause, variant, stage, caller), rs in seen.items():
         r = rs[0]
         ctx.violation('C06: %s violated in %s (%s -> %s) on %d records; first: route=%s mode=%s supplied=%s sees=%s proc=%s %s' % (
-            clause, variant, caller, stage, len(rs), r['route'], r['mode'], r['supplied'], r.get('sees'), r.get('proc'), r.get('err') or (r.get('eff') or '')),
+            clause, variant, caller, stage, len(rs), r['route'], r.get('mode'), r.get('supplied', r.get('option')), r.get('sees'), r.get('proc'), r.get('err') or (r.get('eff') or '')),
             {'clause': clause, 'record': r})
     ctx.cov['exhaustive'] = True
     ctx.cov['rule'] = ('variant in {sift, ensemble_sift, complete_ensemble_sift, mask_sift} x route {keyword dicts, **SiftConfig, get_func partial, get_func partial re-issued after direct nested edits} x all 2^3 patterns of supplied '
